@@ -38,6 +38,10 @@ CLAIMED = {
             'TLA+ model Launch: split_command_line as a character-class state machine with three quoting styles (RoundTrip checked by TLC over every argument list in the bound), PATH resolution (which) over every layout, configuration pass-through table; every TLC-enumerated case replayed on split_command_line / which() and sampled through real pty and Popen children reporting argv, exe, cwd, environ, winsize, ECHO, SIGHUP',
             'TLC enumerates ~91k (quick) / ~4M (thorough) quoted command lines, 1,710 PATH layouts and 204 configurations with the expected result; each is an implementation test against the real code; real probe children report what they were started with',
             'probe children are the oracle for the configuration half; PopenSpawn executable lookup is subprocess\'s', '5 C13', 'launch'),
+    'C15': ('model_checking',
+            'TLA+ model Interact (flush pending, raw mode, two-way copy loop with escape search and filters, restore) checked by TLC over every cutting of keystrokes/output into loop iterations; every path of the TLC state graph replayed in-process on the real interact() (real inner pty child, outer pty as the user, injections placed before each select) and compared with the final state TLC computed',
+            'TLC proves ChildGetsTypedUpToEscape / UserGetsPendingThenOutput / PendingConsumed / ModeRestored for escape absent/first/middle/last/repeated, filters on/off, escape None; 1,500 (quick) / all (thorough) graph paths are executed on the real code and the bytes each side received compared',
+            'small byte alphabet; sys.stdout redirected to the outer pty for the initial flush; select/poll alternate', '5 C15', 'interact'),
     'C16': ('model_checking',
             'TLA+ model Repl (run_command over ExpectAbs against a REPL environment with prompts sharing a prefix) checked by TLC for every chunking; the real REPLWrapper driven against a scripted REPL (blocking and awaited) with TLC trace validation (ExpectTrace: contract + C16 clauses), plus generated commands with known output on the real bash and python REPLs',
             'TLC proves OwnOutput / Usable for every command sequence and chunking in the bound; hundreds of command sequences through the real wrapper are judged by TLC (each expect call against the contract, each return value against the command\'s own output); real REPLs up to hundreds of KB',
@@ -108,6 +112,8 @@ def main():
              'kind_free_text': 'TLC model of run_command + TLC trace validation on a scripted REPL + real bash/python REPLs'},
             {'name': 'pxssh', 'path': 'spec/Pxssh.tla spec/PxsshTrace.tla harness/fakessh.py harness/checks/pxssh_check.py', 'serves_properties': ['C17'],
              'kind_free_text': 'TLC model of login() vs reactive server + TLC validation of real login() transcripts + model prediction per dialogue'},
+            {'name': 'interact', 'path': 'spec/Interact.tla harness/checks/interact.py harness/world.py', 'serves_properties': ['C15'],
+             'kind_free_text': 'TLC model of interact() + replay of every state-graph path on the real interact() between two ptys'},
             {'name': 'patternforms', 'path': 'spec/PatternForms.tla harness/checks/c20.py', 'serves_properties': ['C20'],
              'kind_free_text': 'TLC-enumerated decision table, one implementation test per row'},
         ],
